@@ -401,6 +401,46 @@ pub fn run_blobrd(toks: &[&str]) -> String {
     }
 }
 
+/// BLOBRDS <fault> <dev> <offset> <length> <capacity>: blob extraction into a target of FIXED capacity
+/// (`&mut [u8]`: its `write` returns Ok(0) once it is full, which is legal for `Write`).  The extraction runs in a
+/// thread of its own; when it has not returned after 20 s the result is `HANG` (the thread is abandoned).
+/// Result: `ok n=<returned> filled=<bytes stored> h=<fnv of them>` | `e<Variant>` | `P` | `HANG`
+pub fn run_blobrds(toks: &[&str]) -> String {
+    // the instrumented device is not Send: the thread reads from a plain in-memory cursor (no fault injection here)
+    let bytes = resolve_dev(toks[1]);
+    let offset: u64 = toks[2].parse().unwrap();
+    let length: u64 = toks[3].parse().unwrap();
+    let cap: usize = toks[4].parse().unwrap();
+    let (tx, rx) = std::sync::mpsc::channel();
+    std::thread::spawn(move || {
+        let res = (|| {
+            let mut r = match guard(|| E57Reader::new(std::io::Cursor::new(bytes))) {
+                None => return "open:P".to_string(),
+                Some(Err(e)) => return format!("open:e{}", err_name(&e)),
+                Some(Ok(r)) => r,
+            };
+            let blob = Blob::new(offset, length);
+            let mut store = vec![0u8; cap];
+            let r = {
+                let mut target: &mut [u8] = &mut store[..];
+                let r = guard(|| r.blob(&blob, &mut target));
+                let left = target.len();
+                (r, cap - left)
+            };
+            match r {
+                (None, _) => "P".to_string(),
+                (Some(Ok(n)), filled) => format!("ok n={} filled={} h={}", n, filled, fnv_hex(fnv_bytes(FNV_INIT, &store[..filled]))),
+                (Some(Err(e)), _) => format!("e{}", err_name(&e)),
+            }
+        })();
+        let _ = tx.send(res);
+    });
+    match rx.recv_timeout(std::time::Duration::from_secs(20)) {
+        Ok(s) => s,
+        Err(_) => "HANG".to_string(),
+    }
+}
+
 pub fn run_vcrc(toks: &[&str]) -> String {
     let fault = if toks[0] == "-" { None } else { Some(toks[0].parse().unwrap()) };
     let dev = Dev::new(resolve_dev(toks[1]), fault);
